@@ -230,3 +230,14 @@ chk("C14", "model_checking",
     "socket writes is outside the model (clients drain).",
     "TLA+ lock-template spec + TLC bounded exhaustive interleaving; schedule re-enactment through lock gates; trace validation; race-detector stress",
     "DESIGN.md 3 (C14)", "tlc+harness/cmd/locks")
+
+chk("C09", "model_checking",
+    "MemModel.tla is a reference mailbox model giving the normalised result of every command (CREATE / DELETE / RENAME / SUBSCRIBE / LIST / LSUB / STATUS / APPEND / SELECT / EXAMINE / "
+    "STORE / COPY / MOVE / EXPUNGE / SEARCH with flags, sets, sizes, dates, headers, text, NOT/OR depth 2 / FETCH with sections and partial ranges up to 2^63-1). TLC model-checks UID "
+    "monotonicity and non-reuse, UIDVALIDITY freshness, APPENDUID/COPYUID exactness, STORE/EXPUNGE/MOVE exactness and totality on bounded instances. Every transition of those instances, "
+    "5,040 query vectors and seeded random walks are replayed against a real imapserver+imapmemserver over raw IMAP; random two-connection histories recorded from the server are re-judged "
+    "step by step by MemModelTrace.",
+    "Body, section and search truth comes from tables generated from five real RFC 5322 texts (own MIME slicing, independent of go-message). A crash, drop or stall is a runtime observation no "
+    "model result equals. Random walks and recorded histories are sampled. After a known-finding step the rest of that behaviour is not compared. Stale views are C08's area (NOOP-sync before audits).",
+    "TLA+ reference model + TLC; bounded-exhaustive transition and query-vector replay on the real server; trace validation of recorded histories",
+    "DESIGN.md 3 (C09)", "tlc+harness/cmd/memmodel")
